@@ -37,6 +37,7 @@ type XFunc struct {
 	Lit    bool    `json:"lit,omitempty"`    // a function literal, printed where it is used
 	Parent int     `json:"parent,omitempty"` // literal: the enclosing top-level function
 	NoBody bool    `json:"nobody,omitempty"` // declared without body
+	Lib    bool    `json:"lib,omitempty"`    // declared in the sub-package lib (exported as H<f>); called from p through a selector
 	Locals string  `json:"locals,omitempty"` // one type letter per local variable
 	Body   []XStmt `json:"body,omitempty"`
 }
@@ -44,9 +45,10 @@ type XFunc struct {
 type xprogCase struct {
 	Fs   []XFunc `json:"funcs"`
 	Q    int     `json:"query"`
-	out  string
-	orc  string
-	have bool
+	out    string
+	orc    string
+	have   bool
+	curLib bool // while printing: inside the sub-package
 }
 
 // variable ids: f*100 + j local j · f*100 + 20 + i named result i · f*100 + 40 parameter e ·
@@ -57,6 +59,8 @@ const (
 	xFieldErr = 9003
 	xFieldInt = 9004
 	xOtherInt = 9005
+	xLibErr   = 9011 // package variables of the sub-package lib
+	xLibInt   = 9012
 )
 
 func xVarName(id int) string {
@@ -71,6 +75,10 @@ func xVarName(id int) string {
 		return "st.fi"
 	case xOtherInt:
 		return "otherInt"
+	case xLibErr:
+		return "libErr"
+	case xLibInt:
+		return "libInt"
 	}
 	f, r := id/100, id%100
 	switch {
@@ -158,9 +166,29 @@ func (c *xprogCase) exprSrc(e XExpr, indent string) string {
 		for _, a := range e.Args {
 			as = append(as, c.exprSrc(a, indent))
 		}
-		return fmt.Sprintf("F%d(%s)", e.F, strings.Join(as, ", "))
+		return fmt.Sprintf("%s(%s)", c.calleeName(e.F, c.curLib), strings.Join(as, ", "))
 	}
 	return "nil"
+}
+
+// calleeName: how function f is called from the main package (fromLib false) or from inside lib
+func (c *xprogCase) calleeName(f int, fromLib bool) string {
+	switch {
+	case c.Fs[f].Lib && fromLib:
+		return fmt.Sprintf("H%d", f)
+	case c.Fs[f].Lib:
+		return fmt.Sprintf("lib.H%d", f)
+	}
+	return fmt.Sprintf("F%d", f)
+}
+
+func (c *xprogCase) hasLib() bool {
+	for _, fn := range c.Fs {
+		if fn.Lib && !fn.Lit {
+			return true
+		}
+	}
+	return false
 }
 
 func (c *xprogCase) bodySrc(b *strings.Builder, f int, indent string) {
@@ -209,13 +237,26 @@ func (c *xprogCase) bodySrc(b *strings.Builder, f int, indent string) {
 	}
 }
 
-func (c *xprogCase) sources() map[string]string {
+// sources: idx is the index of the package in the batch it is loaded with (the sub-package's import path depends on it)
+func (c *xprogCase) sources(idx int) map[string]string {
 	c.number()
-	var b strings.Builder
-	b.WriteString("package p\n\nvar vi int\nvar vs string\nvar va any\nvar cond bool\nvar pkgErr error\n\nvar st struct {\n\tfe error\n\tfi int\n}\n\nfunc use(...any) {}\n\n")
+	var b, lb strings.Builder
+	b.WriteString("package p\n\n")
+	if c.hasLib() {
+		fmt.Fprintf(&b, "import lib \"%s/c%d/lib\"\n\nvar _ = lib.Use\n\n", batchMod, idx)
+	}
+	b.WriteString("var vi int\nvar vs string\nvar va any\nvar cond bool\nvar pkgErr error\n\nvar st struct {\n\tfe error\n\tfi int\n}\n\nfunc use(...any) {}\n\n")
+	lb.WriteString("package lib\n\nvar vi int\nvar vs string\nvar va any\nvar cond bool\nvar libErr error\nvar libInt int\n\nfunc use(...any) {}\n\nfunc Use(...any) {}\n\n")
+	mainB := &b
 	for f, fn := range c.Fs {
 		if fn.Lit {
 			continue
+		}
+		b := mainB
+		name := fmt.Sprintf("F%d", f)
+		c.curLib = fn.Lib
+		if fn.Lib {
+			b, name = &lb, fmt.Sprintf("H%d", f)
 		}
 		param := map[string]string{"": "", "e": "e error", "f1": "fn func() error", "f2": "fn func() (int, error)"}[fn.Param]
 		var rs []string
@@ -227,14 +268,19 @@ func (c *xprogCase) sources() map[string]string {
 			}
 		}
 		if fn.NoBody {
-			fmt.Fprintf(&b, "func F%d(%s) (%s)\n\n", f, param, strings.Join(rs, ", "))
+			fmt.Fprintf(b, "func %s(%s) (%s)\n\n", name, param, strings.Join(rs, ", "))
 			continue
 		}
-		fmt.Fprintf(&b, "func F%d(%s) (%s) {\n", f, param, strings.Join(rs, ", "))
-		c.bodySrc(&b, f, "\t")
+		fmt.Fprintf(b, "func %s(%s) (%s) {\n", name, param, strings.Join(rs, ", "))
+		c.bodySrc(b, f, "\t")
 		b.WriteString("}\n\n")
 	}
-	return map[string]string{"p.go": b.String(), "q.go": "package p\n\nvar otherErr error\nvar otherInt int\n"}
+	c.curLib = false
+	files := map[string]string{"p.go": b.String(), "q.go": "package p\n\nvar otherErr error\nvar otherInt int\n"}
+	if c.hasLib() {
+		files["lib/lib.go"] = lb.String()
+	}
+	return files
 }
 
 func xTyLetters(tys string) string {
@@ -329,9 +375,12 @@ func (c *xprogCase) Line() string {
 func (c *xprogCase) order() []int {
 	var tops []int
 	for f, fn := range c.Fs {
-		if !fn.Lit {
+		if !fn.Lit && !fn.Lib {
 			tops = append(tops, f)
 		}
+	}
+	if len(tops) == 0 { // everything moved to lib: ask nothing but keep the protocol alive
+		return nil
 	}
 	var out []int
 	for i := range tops {
@@ -341,7 +390,7 @@ func (c *xprogCase) order() []int {
 }
 
 func (c *xprogCase) job() (rJob, int) {
-	job := rJob{Sources: []map[string]string{c.sources()}}
+	job := rJob{Sources: []map[string]string{c.sources(0)}}
 	for _, f := range c.order() {
 		job.Queries = append(job.Queries, rQuery{0, fmt.Sprintf("F%d", f)})
 	}
@@ -369,8 +418,19 @@ func (c *xprogCase) Run() string {
 	return c.out
 }
 
+// firstAsked: the function the first question (and the literal-exactness oracle) is about
+func (c *xprogCase) firstAsked() int {
+	if o := c.order(); len(o) > 0 {
+		return o[0]
+	}
+	return 0
+}
+
 func (c *xprogCase) literalOnly() bool {
-	fn := c.Fs[c.Q]
+	fn := c.Fs[c.firstAsked()]
+	if fn.Lib {
+		return false
+	}
 	if fn.NoBody {
 		return false
 	}
@@ -400,7 +460,7 @@ func (c *xprogCase) Oracle(out string) string {
 		return c.orc
 	}
 	if c.literalOnly() {
-		fn := c.Fs[c.Q]
+		fn := c.Fs[c.firstAsked()]
 		var cols []string
 		for pos := range fn.Tys {
 			var alts []string
@@ -535,6 +595,9 @@ func (c *xprogCase) Classes() []string {
 			if c.Fs[e.F].NoBody {
 				m["call:no-body"] = true
 			}
+			if c.Fs[e.F].Lib {
+				m["call:other-package"] = true
+			}
 		}
 		for _, a := range e.Args {
 			walk(a)
@@ -605,10 +668,15 @@ func (g *xgen) vars(f int, t byte, assignable bool) []int {
 		add(g.fs[f].Parent)
 	}
 	_ = assignable // package variables and fields are assigned like locals: the resolver goes by object identity
-	if t == 'e' {
+	inLib := g.fs[f].Lib
+	switch {
+	case t == 'e' && inLib:
+		out = append(out, xLibErr)
+	case t == 'e':
 		out = append(out, xPkgErr, xFieldErr, xOtherErr)
-	}
-	if t == 'i' {
+	case t == 'i' && inLib:
+		out = append(out, xLibInt)
+	case t == 'i':
 		out = append(out, xFieldInt, xOtherInt)
 	}
 	return out
@@ -621,7 +689,7 @@ func (g *xgen) newLit(f int, param string, depth int) int {
 		parent = g.fs[f].Parent
 	}
 	idx := len(g.fs)
-	g.fs = append(g.fs, XFunc{Tys: xLitSig(param), Lit: true, Parent: parent})
+	g.fs = append(g.fs, XFunc{Tys: xLitSig(param), Lit: true, Parent: parent, Lib: g.fs[parent].Lib})
 	loc := ""
 	for n := g.r.Intn(3); n > 0; n-- {
 		loc += string("iee"[g.r.Intn(3)])
@@ -643,7 +711,7 @@ func (g *xgen) expr(f int, t byte, depth int) XExpr {
 			if depth < 3 {
 				var cands []int
 				for j, fn := range g.fs {
-					if !fn.Lit && fn.Tys == string(t) && (fn.Param == "" || fn.Param == "e" || depth < 2) {
+					if !fn.Lit && fn.Tys == string(t) && (fn.Param == "" || fn.Param == "e" || depth < 2) && (fn.Lib || !g.fs[f].Lib) {
 						cands = append(cands, j)
 					}
 				}
@@ -692,7 +760,7 @@ func (g *xgen) body(f int, depth int) []XStmt {
 	tuple := func(tys string) (int, bool) {
 		var cands []int
 		for j, h := range g.fs {
-			if !h.Lit && h.Tys == tys && (h.Param == "" || h.Param == "e" || depth < 2) {
+			if !h.Lit && h.Tys == tys && (h.Param == "" || h.Param == "e" || depth < 2) && (h.Lib || !fn.Lib) {
 				cands = append(cands, j)
 			}
 		}
@@ -798,6 +866,7 @@ func genXProg(r *Rng) *xprogCase {
 		if r.Chance(5) {
 			fn.NoBody, fn.Locals, fn.Named = true, "", false
 		}
+		fn.Lib = f > 0 && r.Chance(25) // F0 stays in the main package
 		g.fs = append(g.fs, fn)
 	}
 	for f := 0; f < k; f++ {
@@ -855,7 +924,7 @@ func xprogBatch(cases []Case) []string {
 			var from []int
 			for i, c := range cases[sh.start:sh.end] {
 				pc := c.(*xprogCase)
-				job.Sources = append(job.Sources, pc.sources())
+				job.Sources = append(job.Sources, pc.sources(i))
 				from = append(from, len(job.Queries))
 				for _, f := range pc.order() {
 					job.Queries = append(job.Queries, rQuery{i, fmt.Sprintf("F%d", f)})
@@ -881,5 +950,5 @@ var xprogStream = &Stream{
 	Name: "extended-programs", Quick: 1500, Thorough: 10000, New: func() Case { return &xprogCase{} },
 	Gen:      func(r *Rng, i int) Case { return genXProg(r) },
 	BatchRun: xprogBatch, ShrinkBudget: 40, MaxShrinks: 5,
-	Rule: "programs of 2–6 functions over the extended language of Model/Resolver2: 1–3 results of int/string/error (named in a third of the functions), parameters none / `e error` / `fn func() error` / `fn func() (int, error)`, 0–3 local variables, 1–6 statements (some inside `if` blocks) among single, tuple, forwarding (`x, err = F()`) and `+=` assignments to locals, named results, captured variables, package variables and struct fields, full / forwarding / bare returns; expressions: literals, nil, opaque, identifiers (locals, named results, parameters, package variables of the same and of another file, selectors), calls with an error argument (itself an identifier, nil or a call) or a function literal argument with its own locals and statements, calls through a function-typed parameter, functions declared without body, and a literal-only function now and then; printed to Go (two files), loaded with the real loader (100 per load), every top-level function of a program asked one after the other on the same loaded package in supervised children (the model answers each question from scratch); every statement carries its source-order number for the model; compared: FuncResults.String(); oracle as for the core programs",
+	Rule: "programs of 2–6 functions over the extended language of Model/Resolver2: 1–3 results of int/string/error (named in a third of the functions), parameters none / `e error` / `fn func() error` / `fn func() (int, error)`, 0–3 local variables, 1–6 statements (some inside `if` blocks) among single, tuple, forwarding (`x, err = F()`) and `+=` assignments to locals, named results, captured variables, package variables and struct fields, full / forwarding / bare returns; expressions: literals, nil, opaque, identifiers (locals, named results, parameters, package variables of the same and of another file, selectors), calls with an error argument (itself an identifier, nil or a call) or a function literal argument with its own locals and statements, calls through a function-typed parameter, calls through a selector into functions of a sub-package (which call one another, use that package's variables and take literals too), functions declared without body, and a literal-only function now and then; printed to Go (two files), loaded with the real loader (100 per load), every top-level function of a program asked one after the other on the same loaded package in supervised children (the model answers each question from scratch); every statement carries its source-order number for the model; compared: FuncResults.String(); oracle as for the core programs",
 }
